@@ -283,11 +283,57 @@ def extra(repo, reg, tier, seed):
                      "END forms): outline and workspace/symbol answers equal the generator's expectation")
     it.count = n
     items.append(it)
+    w2, n2 = end_word_lemma(repo)
+    it = Item("C04/END_WORD/lemma.end_statement_grammar", "refuted" if w2 else "bounded-ok", "finite-enumeration(CPython)", 0.0,
+              mode="bounded", witness=w2, confirmed=True if w2 else None, func="fortls.regex_patterns.FortranRegularExpressions",
+              detail=f"bounded: {n2} spellings of END statements (17 keywords and bare END; joined or separate; with or without a "
+                     "name; leading and trailing blanks; both cases) are recognised by the real END_WORD with the right keyword, "
+                     "and nine look-alikes (assignments, ENDFILE statements) are not")
+    it.count = n2
+    items.append(it)
     return items
 
 
 def replay(obligation, model, rep):
     return {"confirmed": None}
+
+
+def end_word_lemma(repo):
+    """Every spelling of an END statement is recognised by END_WORD with the right keyword: END, END <kw>, END<kw>,
+    each with or without a name, with any run of blanks before/after and what is left of a trailing comment (the
+    comment is cut at the `!`, the blanks before it stay); and what is not an END statement is not recognised."""
+    import itertools
+    from fortls.regex_patterns import FortranRegularExpressions as F
+    kws = ["do", "where", "if", "block", "critical", "associate", "select", "type", "enum", "module", "submodule", "program",
+           "interface", "subroutine", "function", "procedure", "forall"]
+    n = 0
+    for kw, joined, named, lead, trail, upper in itertools.product([None] + kws, (False, True), (False, True), ("", "  "),
+                                                                   ("", " ", "    "), (False, True)):
+        if kw is None and joined:
+            continue
+        text = "end" + ("" if kw is None else (kw if joined else " " + kw)) + (" nm_1" if named else "")
+        if kw is None and named:
+            continue  # `end name` is not Fortran
+        text = lead + (text.upper() if upper else text) + trail
+        n += 1
+        m = F.END_WORD.match(text)
+        got = None if m is None else ((m.group(1) or "").lower() or "<bare>")
+        want = kw or "<bare>"
+        if got != want:
+            return {"statement": text, "expected_keyword": want, "END_WORD_gives": got, "regex": F.END_WORD.pattern}, n
+    for text in ("endurance = 1", "end_time = 2", "  ending(3) = 4", "enddo_count = 1", "end%x = 1", "endif_flag = 0",
+                 "end file u", "  END FILE 10", "endfile(10)"):
+        n += 1
+        m = F.END_WORD.match(text)
+        if m is not None and not FRegexNonDef(text):
+            return {"statement": text, "expected_keyword": None, "END_WORD_gives": (m.group(1) or "<bare>"), "regex": F.END_WORD.pattern}, n
+    return None, n
+
+
+def FRegexNonDef(text):
+    """assignments are filtered out before the END test only when they are plain `name =`; the parser tests END first, so
+    this lemma just records which look-alikes END_WORD itself rejects"""
+    return False
 
 
 def do_label_small_scope():
